@@ -132,6 +132,12 @@ class AbstractPduBase(abc.ABC):
 
     @staticmethod
     def header_len_from_raw(data: bytes):
+        """Determine the header length from the raw PDU header.
+
+        :raises BytesTooShortError: Passed data is shorter than the fixed header part.
+        """
+        if len(data) < AbstractPduBase.FIXED_LENGTH:
+            raise BytesTooShortError(AbstractPduBase.FIXED_LENGTH, len(data))
         entity_id_len = ((data[3] >> 4) & 0b111) + 1
         seq_num_len = (data[3] & 0b111) + 1
         return AbstractPduBase.FIXED_LENGTH + 2 * entity_id_len + seq_num_len
